@@ -9,6 +9,10 @@
    - every share is an admissible run of that image in the sense of C05 with the budget that is left
      (hence the total is at most the fragment limit), the return value is the number of fragments consumed;
    - fairness: when the limit is positive and the starting image has a data frame visible, its share is not empty;
+   - progress of the starting image: when the limit is positive and the starting image sees a committed frame at its
+     position (data, or the padding frame that closes a term), its subscriber position moves forward - unless the
+     first frame is a data frame the controlled handler answers Abort.  An image whose poll never leaves a padding
+     frame would never be served again although the others are (it has data beyond its position in the next term);
    - the messages given to the delegate, filtered by session, are exactly what the single-session machine
      delivers on that session's fragments - whatever the other sessions interleave;
    - images that are not in the list do not move.
@@ -20,6 +24,8 @@ Require Import V.Model.Reader.
 Require Import V.Model.Image.
 Require Import V.Model.Subscription.
 Require Import V.Model.Assembler.
+Require Import V.Generated.GenBufferBuilder.
+Require Import V.Model.BufferBuilder.
 Require Import V.Oracle.C05Cases.
 Require Import V.Oracle.C05Oracle.
 Require Import V.Oracle.C20Cases.
@@ -34,6 +40,9 @@ Definition os_removed (s : oslot) : bool := let '(_, _, _, _, _, _, c) := s in c
 Definition os_with_pos (s : oslot) (p : Z) : oslot := let '(id, b, i, se, sg, _, c) := s in (id, b, i, se, sg, p, c).
 Definition os_grow (s : oslot) (j : Z) : oslot :=
   let '(id, b, i, se, sg, p, c) := s in (id, b, i, se, match grow_seg [sg] 0 j with g :: _ => g | [] => sg end, p, c).
+Definition os_roll (s : oslot) (vis : Z) (claim : bool) (ss : list fspec) : oslot :=
+  let '(id, b, i, se, sg, p, c) := s in
+  if p =? (seg_n sg + 1) * 2 ^ b then (id, b, i, se, build_seg i se (seg_n sg + 1, 0, vis, claim, ss), p, c) else s.
 Definition os_frames (s : oslot) : list frame :=
   let '(_, bits, _, _, sg, p, _) := s in frames_at bits [sg] p.
 Definition os_wf (s : oslot) : bool :=
@@ -123,6 +132,24 @@ Definition fair_first (order : list oslot) (raws : list fobs) (limit : Z) : bool
   | [] => true
   end.
 
+(* the starting image must move: it is polled first, with the whole limit.  `sc` = the handler's answers to its visible
+   data frames.  Padding is skipped without asking the handler; a data frame is consumed unless the answer is Abort. *)
+Definition must_advance (sc : list action) (fs : list frame) : bool :=
+  match fs with [] => false | f :: _ => is_pad f || negb (is_abort (hd Continue sc)) end.
+
+Definition fair_progress (osc : oslot -> list action) (order : list oslot) (limit : Z) (ps : list Z) : bool :=
+  match order with
+  | sl :: _ =>
+      if (0 <? limit) && os_wf sl && must_advance (osc sl) (os_frames sl) then os_pos sl <? pos_at ps (os_id sl) else true
+  | [] => true
+  end.
+
+(* Subscription::block_poll polls every image in every call, so "every image with data is served" means: an image whose first
+   visible frame fits the block length limit (a padding frame always does, a data frame when its aligned length is at most the
+   limit) moves forward in this very call, for every positive limit, i32::MAX included *)
+Definition must_block_advance (bl : Z) (fs : list frame) : bool :=
+  match fs with [] => false | f :: _ => (0 <? bl) && (is_pad f || (span f <=? bl)) end.
+
 (* ---- the assembler part ---- *)
 (* payload of the fragment an observation describes: the frame of that image's segment at that offset *)
 Definition seg_frames (s : oslot) : list dlv :=
@@ -183,21 +210,21 @@ Definition judge_sop (st : ostate20) (o : sop) (ob : sobs) : bool :=
       let '(start, _) := rr_next (Z.of_nat (length present)) rr in
       let order := rotation start present in
       let '(ok, total) := judge_shares jp_poll (fun sh => Z.of_nat (length sh)) order raws limit 0 ps in
-      ok && out_eqb ret (Ok total) && fair_first order raws limit
+      ok && out_eqb ret (Ok total) && fair_first order raws limit && fair_progress (fun _ => []) order limit ps
       && fst (judge_sessions present raws dels spec) && forallb (known_session present) dels
   | SCPoll limit salt tab =>
       let '(start, _) := rr_next (Z.of_nat (length present)) rr in
       let order := rotation start present in
       let '(ok, total) := judge_shares (jp_cpoll salt tab) (consumed_count salt tab) order raws limit 0 ps in
-      ok && out_eqb ret (Ok total) && fair_first order raws limit
+      ok && out_eqb ret (Ok total) && fair_first order raws limit && fair_progress (os_script salt tab) order limit ps
       && match dels with [] => true | _ => false end
   | SBlock bl =>
       let jb sl (_ : Z) share p' :=
         if os_wf sl then
           let '(_, bits, _, _, _, pos, _) := sl in
           let ob1 := (Ok (p' - pos), share, synth_ws pos p', p') in
-          if block_excluded bits pos bl then true
-          else judge_block (os_session sl) bl pos (os_off sl) (os_frames sl) ob1
+          judge_block (os_session sl) bl pos (os_off sl) (os_frames sl) ob1
+          && (if must_block_advance bl (os_frames sl) then pos <? p' else true)
         else true in
       let '(ok, _) := judge_shares jb (fun _ => 0) present raws 0 0 ps in
       ok && out_eqb ret (Ok (fold_right Z.add 0 (map (fun sl => pos_at ps (os_id sl) - os_pos sl) present)))
@@ -218,6 +245,8 @@ Definition onext20 (st : ostate20) (o : sop) (ob : sobs) : ostate20 :=
   | SCPoll _ _ _ => (absent', present', snd (rr_next (Z.of_nat (length present)) rr), spec)
   | SBlock _ => (absent', present', rr, spec)
   | SGrow id j => (map_os id (fun s => os_grow s j) absent', map_os id (fun s => os_grow s j) present', rr, spec)
+  | SRoll id vis claim ss =>
+      (map_os id (fun s => os_roll s vis claim ss) absent', map_os id (fun s => os_roll s vis claim ss) present', rr, spec)
   | SAdd id =>
       match find_os id absent' with
       | Some sl => if os_removed sl then (absent', present', rr, spec)
@@ -258,3 +287,85 @@ Fixpoint oadd_initial (absent present : list oslot) (ids : list Z) : list oslot 
 Definition holds_sub_case (slots : list sslot) (initial : list Z) (ops : list sop) (obs : list sobs) : bool :=
   let '(absent, present) := oadd_initial (build_oslots 0 slots) [] initial in
   judge_all20 (absent, present, 0, []) ops obs.
+
+(* ---------------------------------------------------------------------------------------------------------------- *)
+(* BufferBuilder on its own (harness kind `bb`): what the reassembly buffer must do, as a predicate over what was observed.
+   - after `new`: limit HDR, nothing appended, capacity a power of two, at least the minimum, and - for initial lengths
+     1 .. 2^30 - the smallest such capacity that holds the initial length;
+   - append: succeeds (while the new limit is at most BB_SAFE + 1; beyond, debug and release builds differ and nothing is
+     judged), the limit grows by exactly the length, the bytes [HDR, limit) are the old ones followed by the new ones, the
+     capacity is unchanged when it suffices and otherwise the first capacity c, c + c/2, ... (at most MAX) that suffices;
+   - reset: limit HDR, capacity kept;
+   - set_limit: rejected when limit >= capacity, nothing changes; a successful set_limit exposes bytes the property does
+     not speak about: the rest of the case is not judged.
+   A `Hang`, `Panic` or `Crash` where success is required fails.  The specification does not call the model. *)
+(* the numbers of the specification are fixed here, not taken from the table regenerated from the source: a source that
+   changes the growth rule, the maximum or the minimum fails the oracle (and the proofs that tie the model to these numbers) *)
+Definition SPEC_MAX : Z := 2147483639.        (* i32::MAX - 8 *)
+Definition SPEC_MIN : Z := 64.                (* 2 * HDR *)
+Definition SPEC_SAFE : Z := 1431655765.       (* the largest capacity c with c + c/2 <= i32::MAX *)
+Definition spec_grow (c : Z) : Z := Z.min SPEC_MAX (c + c / 2).
+
+Fixpoint first_cap (fuel : nat) (c r : Z) : Z :=
+  match fuel with O => c | S f => let c' := spec_grow c in if r <=? c' then c' else first_cap f c' r end.
+Definition expect_cap (cap req : Z) : Z := if req <=? cap then cap else first_cap 96 cap req.
+
+Definition is_pow2 (c : Z) : bool := (0 <? c) && (2 ^ Z.log2 c =? c).
+Definition new_cap_ok (initial c : Z) : bool :=
+  (SPEC_MIN <=? c) && is_pow2 c &&
+  (if (1 <=? initial) && (initial <=? 1073741824) then (initial <=? c) && ((c =? SPEC_MIN) || (c <? 2 * initial))
+   else c =? SPEC_MIN).
+
+Definition is_illegal_arg (r : outcome Z) : bool := match r with Err IllegalArg => true | _ => false end.
+
+(* what the oracle knows: capacity, limit, the bytes appended since the last reset; None = no longer judged *)
+Definition ostate_bb := option (Z * Z * list Z).
+
+Definition judge_bop (st : ostate_bb) (o : bop) (ob : bobs) : bool * ostate_bb :=
+  match st with
+  | None => (true, None)
+  | Some (cap, limit, content) =>
+      let '(r, l', c', h') := ob in
+      match o with
+      | BAppend k len =>
+          if (0 <=? len) && (limit + len <=? SPEC_SAFE + 1) then
+            let content' := content ++ payload k len in
+            let cap' := expect_cap cap (limit + len) in
+            (out_eqb r (Ok 0) && (l' =? limit + len) && (c' =? cap') && (h' =? hash_bytes 7 content'),
+             Some (cap', limit + len, content'))
+          else (true, None)
+      | BReset => (out_eqb r (Ok 0) && (l' =? HDR) && (c' =? cap) && (h' =? hash_bytes 7 []), Some (cap, HDR, []))
+      | BSetLimit l =>
+          if l >=? cap then (is_illegal_arg r && (l' =? limit) && (c' =? cap) && (h' =? hash_bytes 7 content), st)
+          else (out_eqb r (Ok 0) && (l' =? l) && (c' =? cap), None)
+      end
+  end.
+
+Fixpoint judge_bops (st : ostate_bb) (ops : list bop) (obs : list bobs) : bool :=
+  match ops, obs with
+  | [], [] => true
+  | o :: r, ob :: obr => let '(ok, st') := judge_bop st o ob in ok && judge_bops st' r obr
+  | _, _ => false
+  end.
+
+(* initial lengths whose round-up to a power of two fits an i64: the others are not judged (debug builds panic there) *)
+Definition initial_judged (initial : Z) : bool := (- two63 <? initial) && (initial <=? 4611686018427387904).
+
+Definition holds_bb_case (initial : Z) (ops : list bop) (obs : list bobs) : bool :=
+  if negb (initial_judged initial) then true else
+  match obs with
+  | (r, l, c, h) :: rest =>
+      out_eqb r (Ok 0) && (l =? HDR) && (h =? hash_bytes 7 []) && new_cap_ok initial c && judge_bops (Some (c, HDR, [])) ops rest
+  | [] => false
+  end.
+
+(* find_suitable_capacity called directly (verification hook): for 2 <= capacity < required <= BB_SAFE + 1 it returns the
+   first sufficient capacity of the growth sequence; required above MAX cannot be satisfied: an error or a panic, never a
+   capacity, never an endless loop; in between a release build must return the prescribed capacity and a debug build may
+   panic instead (the growth step overflows an i32) *)
+Definition holds_find (cap req : Z) (r : outcome Z) : bool :=
+  if negb ((2 <=? cap) && (cap <=? SPEC_MAX) && (cap <? req)) then true     (* not a call a builder makes *)
+  else if req <=? SPEC_SAFE + 1 then out_eqb r (Ok (first_cap 96 cap req))
+  else if req <=? SPEC_MAX then
+    match r with Ok c => c =? first_cap 96 cap req | Panic => true | _ => false end
+  else match r with Err IllegalState => true | Panic => true | _ => false end.
